@@ -162,9 +162,7 @@ Neutral(gr, r) ==
     \/ r.kind = "delmeta" /\ ~\E m \in gr.meta : m[1] = r.a
     \/ r.kind = "getart" /\ HasProducer(gr, r.a) /\ ~Evaluable(gr, ProducerNode(gr, r.a))
     \/ r.kind = "getzip" /\ \E q \in gr.prod : ~Evaluable(gr, q[2])
-    \* generator bounds of GraphEdit, not part of the contract
-    \/ /\ r.kind = "connectarr" /\ r.a \in gr.ids /\ r.b \in gr.ids /\ r.a # r.b /\ HasArr(gr.type[r.b])
-       /\ Len(gr.arr[r.b]) >= 13
+    \* generator bound of GraphEdit (keeps graphs small), not part of the contract: MaxNodes is 99 in the judges
     \/ r.kind = "create" /\ r.a \in NodeTypes /\ Cardinality(gr.ids) >= MaxNodes
 
 ReadValid(gr, r) ==
@@ -173,8 +171,13 @@ ReadValid(gr, r) ==
       [] r.kind = "getzip" -> \A q \in gr.prod : Evaluable(gr, q[2])
       [] OTHER -> TRUE
 
-\* GraphEdit.Enabled plus what its generator never proposes: a node type nobody registered
-HEnabled(gr, r) == Enabled(gr, StOf(r)) /\ (r.kind = "create" => r.a \in NodeTypes)
+\* GraphEdit.Enabled, plus what its generator never proposes (a node type nobody registered), minus its generator
+\* bound on array inputs (at most 13): the API accepts any number, Apply appends
+HEnabled(gr, r) ==
+    IF r.kind = "connectarr"
+    THEN /\ r.a \in gr.ids /\ r.b \in gr.ids /\ r.a # r.b /\ HasArr(gr.type[r.b])
+         /\ ArrKind(gr.type[r.b]) = OutKind(gr.type[r.a]) /\ ~WouldCycle(gr, r.a, r.b)
+    ELSE Enabled(gr, StOf(r)) /\ (r.kind = "create" => r.a \in NodeTypes)
 
 Class(gr, r) ==
     IF r.flaw # "none" THEN "invalid"
@@ -246,7 +249,7 @@ NodesPlus == g.ids \cup {Ghost}
 ArrLen(n) == IF n \in g.ids THEN Len(g.arr[n]) ELSE 0
 
 EditPool ==
-    {Rq("create", t, 0, 0) : t \in NodeTypes \cup {99}}
+    {Rq("create", t, 0, 0) : t \in (IF Cardinality(g.ids) < MaxNodes THEN NodeTypes ELSE {}) \cup {99}}
     \cup {Rq("connect", a, b, c) : a \in NodesPlus, b \in NodesPlus, c \in 1..4}
     \cup {Rq("connectarr", a, b, 0) : a \in NodesPlus, b \in NodesPlus}
     \cup {Rq("disconnect", 0, b, c) : b \in NodesPlus, c \in 1..4}
@@ -361,7 +364,8 @@ ViewSandwich == <<g, snap, hist>>
 \* refinement: every step of the API is a GraphEdit step, a whole-graph replacement, or stuttering on g
 RefinesGraphEdit ==
     [][\/ g' = g
-       \/ \E st \in Candidates : Enabled(g, st) /\ g' = Apply(g, st)
+       \/ \E st \in Candidates \cup {StOf(r) : r \in EditPool} :
+             (Enabled(g, st) \/ HEnabled(g, FromSt(st))) /\ g' = Apply(g, st)
        \/ g' = snap]_g
 HTypeOK == WellFormed(g) /\ DOMAIN g.type = g.ids
 HAcyclic == AcyclicG(g)
